@@ -231,6 +231,8 @@ def main(argv):
                 if o != want:
                     c.violation("utf16-conversion: fromUTF8/toUTF8String(%r) = %s, expected %s" % (l, o[:120], want[:120]), {"op": "fromUTF8", "input": l, "impl": o, "expected": want})
                     break
+    if not quick:
+        asan_lines(c, "hx_flatten", fl + ["L " + hx(u8(l)) for l in lines[:3000]] + ["N " + hx(u8(l)) for l in lines[:3000]], what="(Flatten::Apply, toLower, Normalize)")
     starts = {code: build_starts(P, var) for var, code in langs}
     if fout is not None:
         for (code, l), o in zip(fcases, fout):
